@@ -23,6 +23,11 @@ type c05Case struct {
 	Key    uint64     `json:"key"`
 }
 
+// layoutLenient is set by checks other than C05 that use this predicate to
+// say "the password honours the recipe" (C14, C15): the fine print of the
+// token layout - no empty separator tokens - is C05's alone.
+var layoutLenient = false
+
 func checkWLStructure(w gen.WLSpec, m sepModel, pw *spg.Password) error {
 	kept := oracle.Kept(w.Words)
 	keptSet := map[string]bool{}
@@ -136,7 +141,7 @@ func checkWLStructure(w gen.WLSpec, m sepModel, pw *spg.Password) error {
 		return fmt.Errorf("trailing separator in %q", toks)
 	}
 	for _, s := range seps {
-		if s == "" {
+		if s == "" && !layoutLenient {
 			return fmt.Errorf("empty separator token in %q", toks)
 		}
 	}
